@@ -15,6 +15,49 @@ BASELINE_OFF = ('cd /repo && env -u VERMOUTH_VERIF /venv/bin/python -m pytest -r
                 '--continue-on-collection-errors -n 16')
 
 
+
+TEXT = {
+ 'C01': ('reference-model monitor on do_mapping output + logged warnings (independent placement enumerator); invariants on real shipped mappings',
+         'Held on the executions produced: thousands of generated force-field pairs/molecules per run compared particle by particle with a reference mapper, plus charmm peptides through the shipped mappings. Exploration is the right level: the input space (mappings x molecules) is unbounded and the oracle is total on the generated domain.'),
+ 'C02': ('offline checker over the written ITP text (independent ITP reader) against the in-memory molecule',
+         'Held on the executions produced: every generated molecule (arbitrary keys, atom ids, interaction types, guards, edit histories) is written by the real writer and read back by an independent reader.'),
+ 'C03': ('cross-file consistency monitor over PDB/GRO/TOP/ITP files written by the library and by the real CLI (independent readers)',
+         'Held on the executions produced: generated systems with interleaved and near-identical molecules, and CLI runs on assembled oligomers; every file set is read back with independent readers and cross-checked.'),
+ 'C04': ('by-construction ground-truth monitor on RepairGraph output over all shipped blocks in hostile presentations',
+         'Held on the executions produced: blocks of the three atomistic force fields presented scrambled/permuted/incomplete/with extras; the expected result is known by construction. Watchdog hits are inconclusive, never violations.'),
+ 'C05': ('wrapped match_link generator + before/after interaction tables compared with an independent placement enumerator and a reference link interpreter',
+         'Held on the executions produced: every link of eight shipped force fields on pipeline-built, hostilely renumbered molecules, and synthetic link lists using every documented feature.'),
+ 'C06': ('every yielded mapping checked against exhaustive enumeration (own matcher cross-checked with VF2) and automorphism classes; coset-inside-orbit invariant on the symmetry analysis',
+         'Held on the executions produced: graph pairs up to pattern 10 / host 14 nodes incl. structured symmetric families; exhaustive enumeration is the oracle. Termination is not claimed.'),
+ 'C07': ('audit-hook trace + directory snapshots against a sequential file-system model; exhaustive crash-point enumeration (fork + os._exit at the k-th event) per explored history; CLI exit code/listing gate',
+         'fault_enumeration: for each explored history all N+1 crash points of finalisation are enumerated (also with the temporary directory on another file system); histories and CLI scenarios themselves are sampled.'),
+ 'C08': ('reference arithmetic on the return value of ignore_warnings_and_count fed by real logging calls; exhaustive small sub-domain',
+         'Held on the executions produced, incl. an exhaustive enumeration of a small sub-domain; the function is pure arithmetic so exploration with an exact reference is adequate.'),
+ 'C09': ('exact weighted-mean oracle (fsum), NaN rule, bounding box and rigid-motion equivariance by paired executions; particles from the real do_mapping',
+         'Held on the executions produced: generated particles with shared atoms, zero weights, missing coordinates, centre weights, 2-D/3-D.'),
+ 'C10': ('O(N^2) pairwise reference with an independent Bondi table; tag-based conservation and residue-integrity checks on MakeBonds output',
+         'Held on the executions produced: fragments of real structures and point clouds with planted near-threshold pairs, all modes and fudge factors.'),
+ 'C11': ('paired real CLI runs in separate processes (presentation applied in memory to read_system), pairwise file comparison',
+         'Held on the executions produced: a sparse sample of (structure, options, presentation, hash seed); cannot be enumerated, each pair costs a full pipeline run.'),
+ 'C12': ('shadow-model monitor compared with every molecule of a pool after every operation of a random edit history; merge post-condition checked on observed before/after states',
+         'Held on the executions produced: tens of thousands of operations per run, hostile orders emphasised.'),
+ 'C13': ('loaded objects compared with the abstract description the text was rendered from; fault injection must raise',
+         'Held on the executions produced: generated .ff/.itp/.map files with equivalent spellings varied, and one injected fault per faulty file.'),
+ 'C14': ('identify_ptms wrapped from the harness; cover checker (exactly-once, induced, name/element rules, labels, warning) on molecule before/after',
+         'Held on the executions produced: charmm/amber peptides through the real RepairGraph and synthetic modification sets built around the cover search.'),
+ 'C15': ('pairwise five-criteria reference on the elastic bonds; paired executions for rigid motion / atom order; NaN run must warn',
+         'Held on the executions produced: generated molecules with irregular selections, domains, near-threshold pairs.'),
+ 'C16': ('round trip through the real writers and readers compared field by field with format tolerances',
+         'Held on the executions produced: systems up to 100 005 atoms crossing every field-width boundary.'),
+ 'C17': ('per-residue reference assignment on node attributes after AnnotateResidues; rule-table oracle for DSSP translation (exhaustive to length 4/6)',
+         'Held on the executions produced; DSSP strings are enumerated exhaustively up to length 4 (quick) / 6 (thorough).'),
+ 'C18': ('set-based reference for Go sites and contacts on the objects after GoPipeline.run_system',
+         'Held on the executions produced: generated multi-chain systems with cross-links and contact maps straddling every filter.'),
+ 'C19': ('per-specification residue matcher reference on node attributes and warnings after AnnotateMutMod; atom sets after the real RepairGraph',
+         'Held on the executions produced: generated systems and specification lists using every subset of parts.'),
+}
+
+
 def main():
     checks = []
     na = []
@@ -34,12 +77,11 @@ def main():
             'engine': 'vf',
             'level_claimed': {
                 'category': mod.LEVEL,
-                'text': m.get('text', 'Held on the executions produced: a reference oracle written from the property '
-                                      'statement observes real executions of the code on generated and real inputs.'),
+                'text': TEXT[pid][1],
                 'design_ref': 'DESIGN.md section 3, ' + pid,
             },
             'level_note': m.get('note', '; '.join(getattr(mod, 'ASSUMPTIONS', [])) or 'oracle correctness; bounded inputs'),
-            'technique': m.get('technique', 'runtime monitoring: reference-model oracle on observed executions'),
+            'technique': 'runtime monitoring: ' + TEXT[pid][0],
         })
     manifest = {
         'version': 1,
